@@ -113,6 +113,16 @@ impl Renderer {
         }
     }
 
+    /// separation before `->`: identifiers may contain `-`, so an identifier-like token must not touch the arrow
+    fn before_arrow(&mut self) {
+        let last = self.out.chars().last().unwrap_or(' ');
+        if last == '_' || last == '-' || last.is_alphanumeric() {
+            self.sp()
+        } else {
+            self.osp(true)
+        }
+    }
+
     fn nl(&mut self) {
         match &mut self.rng {
             None => {
@@ -227,7 +237,7 @@ impl Renderer {
                 self.put("edge");
                 self.sp();
                 self.expr(&mut s["src"]);
-                self.osp(true);
+                self.before_arrow();
                 self.put("->");
                 self.osp(true);
                 self.expr(&mut s["dst"]);
@@ -249,7 +259,7 @@ impl Renderer {
                 self.put("(");
                 self.osp(false);
                 self.expr(&mut s["src"]);
-                self.osp(true);
+                self.before_arrow();
                 self.put("->");
                 self.osp(true);
                 self.expr(&mut s["dst"]);
